@@ -550,10 +550,25 @@ func min(a, b int) int {
 
 // ---------------------------------------------------------------- large datagrams
 
+// pendingFindings: genuine defects of the unchanged tree this check found and reported,
+// excluded by construction until they are listed in known_findings.json (then IsKnown
+// decides: "known" keeps the exclusion, "fixed" lifts it - remove the entry here then).
+//
+// C04-snmp-long-form-length: services/snmp/snmp.go takes the FIRST length octet of the
+// message as its length (asnSize := 2 + int(hdr[1])), so every SNMP message of 128 bytes
+// or more (length form 0x81 / 0x82: a long community, nine or more variable bindings)
+// is cut to 131 / 132 bytes, fails to decode and produces no event at all.
+// Reproducer: c04/pending/snmp-long-form-length.replay.json
+var pendingFindings = map[string]bool{"C04-snmp-long-form-length": true}
+
+const kfSNMPLong = "C04-snmp-long-form-length"
+
+func excludedFinding(r *vlib.Run, id string) bool { return r.IsKnown(id) || pendingFindings[id] }
+
 // genUDPBig: snmp messages with long communities / many variable bindings (the message
 // and its nested sequences take the 0x81 / 0x82 length forms) and dns queries with names
 // and labels at their maximum lengths.
-func genUDPBig(t *rapid.T, service string) svc.Dialog {
+func genUDPBig(t *rapid.T, service string, snmpMax int) svc.Dialog {
 	d := svc.Dialog{Service: service, UDP: true}
 	n := rapid.IntRange(1, 3).Draw(t, "ndgram")
 	for i := 0; i < n; i++ {
@@ -592,7 +607,7 @@ func genUDPBig(t *rapid.T, service string) svc.Dialog {
 				w := bTLV(0x30, bInt(0), bStr(comm), bTLV(tag, bInt(reqid), bInt(0), bInt(0), bTLV(0x30, vbs...)))
 				return w, comm, strings.Join(strs, ",")
 			}
-			size := drawSize(t, "size", 1400)
+			size := drawSize(t, "size", snmpMax)
 			pad := fitTotal(func(p int) []byte { w, _, _ := build(p); return w }, size)
 			w, comm, oids := build(pad)
 			d.Cmds = append(d.Cmds, svc.Cmd{Name: fmt.Sprintf("%s%d", typ, len(w)), Wire: w, Exp: []svc.Expect{{Match: map[string]string{"type": typ, "snmp.community": comm, "snmp.oids": oids, "snmp.version": "0"}, OIDs: []string{"snmp.oids"}}}})
